@@ -26,6 +26,7 @@ type TStream struct {
 	WChunk int64 `json:"wchunk"`         // write chunking pattern
 	RBuf   int64 `json:"rbuf"`           // read buffer pattern
 	AtMS   int64 `json:"at,omitempty"`   // start offset after the handshake
+	RLagMS int64 `json:"rlag,omitempty"` // the accepting application starts reading this long after it accepted the stream
 }
 
 type TDgram struct {
@@ -114,6 +115,11 @@ func genTransfer(seed uint64, tier string) KScenario {
 	idle := int64(r.Pick(4000, 8000, 15000, 30000))
 	sc.Cfg.IdleMS = [2]int64{idle, int64(r.Pick(4000, 8000, 15000, 30000))}
 	sc.Cfg.Datagrams = [2]bool{r.P(0.4), r.P(0.4)}
+	if r.P(0.2) {
+		// few concurrent incoming streams: the opener's later streams wait for the MAX_STREAMS that completed streams earn
+		sc.Cfg.MaxStreams = [2]int64{int64(r.Pick(1, 2, 3)), int64(r.Pick(1, 2, 3))}
+		sc.Cfg.MaxUniStreams = [2]int64{int64(r.Pick(1, 2, 3)), int64(r.Pick(1, 2, 3))}
+	}
 	if r.P(0.15) {
 		sc.Cfg.KeyUpdate = r.Pick(3, 10, 40)
 	}
@@ -129,6 +135,9 @@ func genTransfer(seed uint64, tier string) KScenario {
 		sc.Net.Outages = append(sc.Net.Outages, WOutage{Dir: r.N(3), FromMS: from, ToMS: from + int64(r.Pick(50, 500, 2000, int(idle)-500, int(idle)+3000))})
 	}
 	n := r.Pick(1, 1, 2, 3, 5, 12)
+	if sc.Cfg.MaxStreams[0] > 0 {
+		n = r.Pick(3, 5, 8)
+	}
 	if tier == "thorough" && r.P(0.2) {
 		n = r.Range(12, 40)
 	}
@@ -145,6 +154,13 @@ func genTransfer(seed uint64, tier string) KScenario {
 			st.Back = sizes[r.N(len(sizes)-1)]
 			if n > 5 && st.Back > 65536 {
 				st.Back = 5000
+			}
+		}
+		if lagP := 0.15; r.P(lagP) || (sc.Cfg.MaxStreams[0] > 0 && r.P(0.5)) {
+			st.RLagMS = int64(r.Pick(40, 200, 1000))
+			if sc.Cfg.MaxStreams[0] > 0 && r.P(0.6) {
+				// small enough not to earn a window update, which would carry the MAX_STREAMS frame along
+				st.Size, st.Back = r.Pick(1, 1200, 5000), min(st.Back, 1200)
 			}
 		}
 		sc.Streams = append(sc.Streams, st)
@@ -514,6 +530,14 @@ func runTransfer(t *testing.T, ksc KScenario, res *KResult) {
 				swg.Add(1)
 				go func() {
 					defer swg.Done()
+					if spec.RLagMS > 0 {
+						// a slow consumer: by the time it reads (and completes) the stream, the acknowledgements for the
+						// stream's packets have long been sent and the connection may be idle
+						select {
+						case <-time.After(time.Duration(spec.RLagMS) * time.Millisecond):
+						case <-ctx.Done():
+						}
+					}
 					if uni {
 						st.read(res, rs, key(i, 0), spec.Size, spec.RBuf, 0, what)
 						return
